@@ -210,3 +210,25 @@ Fixpoint eval_exact (e : cexpr) : bool :=
     end
   | None => true
   end.
+
+(* one component of `const v = vecN<T>(..) op vecN<T>(..);` (lowerConstantVectorBinaryExpr 1858): the
+   components are stored as ScalarValue{Bits: uint64(int64 value)}; the result literal is
+   scalarValueToLiteral{Bits: result, Kind: kind of the left component} *)
+Definition sv_bits (l : lit) : option (mkind * Z) :=
+  match l with
+  | LI32 b => Some (KSint, u64 (sgn b))
+  | LU32 b => Some (KUint, b)
+  | _ => None
+  end.
+Definition is_comparison (op : binop) : bool :=
+  match op with BEq | BNe | BLt | BLe | BGt | BGe => true | _ => false end.
+Definition mod_vec_component (op : binop) (l r : lit) : option lit :=
+  match sv_bits l, sv_bits r with
+  | Some (k, a), Some (_, b) =>
+    if is_comparison op then Some (LBool (eval_scalar_cmp_bits op a b))
+    else match op with
+         | BAdd | BSub | BMul | BDiv | BMod => Some (literal_of_sv k (eval_scalar_arith_bits op a b))
+         | _ => Some (literal_of_sv k a)     (* any other operator token: `default: return left.Bits` *)
+         end
+  | _, _ => None
+  end.
